@@ -282,8 +282,10 @@ v("C13", "flags-inlined", "keep", [], [("plugin_appender.go",
 
 # ---------------------------------------------------------------- C14
 v("C14", "suffix-test-removed", "break", ["C14.guards"], [("plugin_appender.go",
-  "\t\t// Only files this appender itself could have produced.\n\t\tif _, err := time.Parse(\"20060102150405\", suffix); err != nil {\n\t\t\tcontinue\n\t\t}\n",
+  "\t\tif len(suffix) != 14 {\n\t\t\tcontinue\n\t\t}\n\t\tif _, err := time.Parse(\"20060102150405\", suffix); err != nil {\n\t\t\tcontinue\n\t\t}\n",
   "\t\t_ = suffix\n")])
+v("C14", "length-test-removed", "break", ["C14.guards"], [("plugin_appender.go",
+  "\t\tif len(suffix) != 14 {\n\t\t\tcontinue\n\t\t}\n", "")])
 v("C14", "after-for-before", "break", ["C14.age"], [("plugin_appender.go",
   "if info.ModTime().Before(expiration) {", "if info.ModTime().After(expiration) {")])
 v("C14", "minutes-for-hours", "break", ["C14.age"], [("plugin_appender.go",
@@ -585,8 +587,10 @@ def main():
     for k in ("break", "keep"):
         os.makedirs(os.path.join(OUT, k), exist_ok=True)
         for f in os.listdir(os.path.join(OUT, k)):
-            if f.endswith(".patch"):
-                os.remove(os.path.join(OUT, k, f))
+            # only the generated files are replaced; hand-written variants and the rename variants carry another marker
+            p = os.path.join(OUT, k, f)
+            if f.endswith(".patch") and "(%s)\n" % k in open(p).readline() and "hand-written" not in open(p).readline() and not f.startswith("ALL-"):
+                os.remove(p)
     bad = 0
     for prop, name, kind, expects, edits, comment in V:
         files = {}
